@@ -351,7 +351,7 @@ func runShard(bin, prop, tier, fl string, shard, n int, seed int64, budget strin
 	cmd.Stdout = &buf
 	cmd.Stderr = &buf
 	err := cmd.Run()
-	so := shardOut{output: tail(buf.String(), 6000)}
+	so := shardOut{output: headTail(buf.String(), 4000, 4000)}
 	b, rerr := os.ReadFile(outF)
 	if rerr == nil {
 		var r vk.Result
@@ -380,6 +380,13 @@ func shellJoin(a []string) string {
 		q = append(q, "'"+strings.ReplaceAll(s, "'", `'\''`)+"'")
 	}
 	return strings.Join(q, " ")
+}
+
+func headTail(s string, h, t int) string {
+	if len(s) <= h+t {
+		return s
+	}
+	return s[:h] + "\n…\n" + s[len(s)-t:]
 }
 
 func tail(s string, n int) string {
@@ -462,6 +469,18 @@ func runCheck(prop, tier, only string) int {
 				// a dying worker is the C06 violation itself: attribute it to the current case
 				agg.ViolCount["C06/process-abort"]++
 				agg.Violations = append(agg.Violations, vk.Violation{Key: "C06/process-abort/" + crashKey(o.crash, o.output), Case: o.crash, Detail: "worker process died while decoding this input: " + tail(o.output, 800)})
+				agg.Exhaustive = false
+				continue
+			}
+			if o.crash != "" && strings.Contains(o.output, "github.com/ClickHouse/ch-go") && (strings.Contains(o.output, "fatal error:") || strings.Contains(o.output, "panic:")) && !strings.Contains(o.output, "HARNESS-ERROR") {
+				// the library brought the worker process down while running this case
+				kind := "panic"
+				if strings.Contains(o.output, "fatal error:") {
+					kind = "fatal-error"
+				}
+				key := prop + "/process-crash/" + kind
+				agg.ViolCount[key]++
+				agg.Violations = append(agg.Violations, vk.Violation{Key: key, Case: o.crash, Detail: "the worker process died inside library code while running this case:\n" + headTail(o.output, 1500, 500)})
 				agg.Exhaustive = false
 				continue
 			}
